@@ -17,10 +17,13 @@ EXITS_FAIL = [1, 2, 101, 255, None, None]  # None = killed by a signal (SIGKILL 
 WRITE_KINDS = ["echo", "formatted", "garbage", "badutf8"]
 
 
+LARGE_FROM = 6  # index of the first prepared bindings (size index * 2 + variant) that is megabytes large
+
+
 def fit_caps(case, nbind):
     """One-byte pipes against megabytes of input cost a scheduler step per byte:
     the largest bindings get realistic pipe sizes only."""
-    if case["bindings"] >= 4:
+    if case["bindings"] >= LARGE_FROM:
         for k in ("cap_in", "cap_out"):
             if case.get(k, 0) in (1, 7):
                 case[k] = 65536 if case[k] == 1 else 4096
@@ -29,7 +32,8 @@ def fit_caps(case, nbind):
 
 def sim_sizes(tier):
     # number of structs in the prepared bindings: small, medium, large (>1 MB of tokens)
-    return [1, 60, 4000] if tier == "quick" else [1, 60, 4000, 12000]
+    # the large ones come last so that `bindings >= 2 * (len - large)` identifies them; 0 = empty bindings
+    return [0, 1, 60, 4000] if tier == "quick" else [0, 1, 60, 4000, 12000]
 
 
 def enumerate_cases(nbind):
@@ -235,6 +239,13 @@ def real_cases(tier, seed):
                 "read1:500;exit:2"]
     for i, s in enumerate(scripts):
         add("script", 60 if i % 2 else 1, i % 2, FAKEFMT, s, sink=["vec", "file", "string"][i % 3])
+    # empty bindings: nothing to feed, the child must still see end-of-file
+    for s in ("readall;write:formatted:all;exit:0", "readall;exit:1", "readall;write:garbage:all;exit:2", "exit:0"):
+        add("empty-bindings", 0, len(cases) % 2, FAKEFMT, s, timeout_s=30)
+    # a formatter that only fails when it is given a configuration file
+    for size in (1, 60):
+        add("fail-only-with-config", size, size % 2, FAKEFMT, "readall;failifconfig;write:formatted:all;exit:0", config="@CFG@")
+        add("fail-only-with-config-absent", size, size % 2, FAKEFMT, "readall;failifconfig;write:formatted:all;exit:0")
     # the formatter named by $RUSTFMT instead of with_rustfmt()
     for env_v, exp, scr in (("", "fallback", ""), ("   ", "fallback", ""), ("@MISSING@", "fallback", ""), ("@DIR@", "fallback", ""),
                             ("@FAKEFMT@", "model", "readall;write:formatted:all;exit:0"),
@@ -257,7 +268,7 @@ def real_cases(tier, seed):
     # fault-free configuration with the real tools: all three formatter settings tokenise identically
     rustfmt = "@RUSTFMT@" if shutil.which("rustfmt") else ""
     cfgfile = "@CFG@"
-    for size in (1, 60):
+    for size in (0, 1, 60):
         for variant in (0, 1):
             add("prettyplease", size, variant, "", expect="tokens", formatter="prettyplease")
             add("prettyplease-to-file", size, variant, "", expect="tokens", formatter="prettyplease", sink="file")
@@ -290,23 +301,23 @@ def run(tier, seed):
         cases.append(random_case(Rng.for_case(seed, "c15-rand", i), i, nbind))
     schedules = 12 if quick else 40
     cases = [fit_caps(c, nbind) for c in cases]
-    big_first = [c for c in cases if c["bindings"] >= 4] + [c for c in cases if c["bindings"] < 4]
+    big_first = [c for c in cases if c["bindings"] >= LARGE_FROM] + [c for c in cases if c["bindings"] < LARGE_FROM]
     # large bindings are expensive per execution: fewer schedules for them
     reqs = []
     chunk = 24
     for lo in range(0, len(big_first), chunk):
         part = big_first[lo:lo + chunk]
-        large = any(c["bindings"] >= 4 for c in part)
+        large = any(c["bindings"] >= LARGE_FROM for c in part)
         reqs.append({"op": "c15", "sizes": sizes, "seed": seed, "schedules": max(3, schedules // 4) if large else schedules,
                      "schedule_dir": sched_dir, "cases": part})
     # PCT scheduler on the enumerated cases (priority-based, finds ordering bugs random misses)
     for depth in ((2,) if quick else (1, 2, 3)):
-        small = [c for c in cases[:n_enum] if c["bindings"] < 4 and c["spawn"] == "ok"]  # PCT needs concurrency
+        small = [c for c in cases[:n_enum] if c["bindings"] < LARGE_FROM and c["spawn"] == "ok"]  # PCT needs concurrency
         for lo in range(0, len(small), chunk * 2):
             reqs.append({"op": "c15", "sizes": sizes, "seed": seed + depth, "schedules": 6 if quick else 30,
                          "pct_depth": depth, "schedule_dir": sched_dir, "cases": small[lo:lo + chunk * 2]})
     log(f"[C15] simulated tier: {len(cases)} scripts ({n_enum} enumerated + {n_rand} seeded), {len(reqs)} batches")
-    res = run_requests(reqs, timeout=1800, progress=50)
+    res = run_requests(reqs, timeout=600, progress=50)
     # determinism self-check: the first batches again, each in a fresh process
     pick = reqs[-(2 if quick else 8):]  # the cheap batches (small bindings, PCT)
     again = run_requests(pick, timeout=1800, workers=1)
@@ -359,11 +370,11 @@ def run(tier, seed):
     rcases, have_rustfmt = real_cases(tier, seed)
     fixture = real_fixture(scratch)
     log(f"[C15] real-process tier: {len(rcases)} runs (real rustfmt available: {have_rustfmt})")
-    rres = run_requests([resolve(c, fixture) for c in rcases], timeout=120, workers=min(NCPU, 8), progress=200)
+    rres = run_requests([resolve(c, fixture) for c in rcases], timeout=60, workers=min(NCPU, 8), progress=200)
     real_classes = {}
     for c, r in zip(rcases, rres):
         if r.get("kind") == "timeout":
-            r = {"ok": False, "class": "hang", "message": "Bindings::write did not return within 120 s"}
+            r = {"ok": False, "class": "hang", "message": "Bindings::write did not return within 60 s"}
         elif r.get("kind") == "crash":
             r = {"ok": False, "class": "crash", "message": f"driver died with status {r.get('status')}"}
         real_classes[r.get("class", "?")] = real_classes.get(r.get("class", "?"), 0) + 1
